@@ -43,6 +43,16 @@ class World:
         self._drain(lambda: boot.done())
         if not boot.done() or boot.exception() is not None:
             raise explore.InternalError(f"C10 bring-up failed: {boot.exception() if boot.done() else 'pending'}")
+        if params.get("prior"):
+            # a failure the NCP signalled while no application callback was registered (ignored by design); the
+            # application attaches afterwards and must still be told about every later failure
+            code = int(params["prior"][-2:], 16)
+            sw.ash.failed = True
+            sw.n2h.clear()
+            sw.loop.call_soon(sw.proto.data_received, ref_ash.wire(ref_ash.enc_error(code)))
+            sw.loop.settle()
+            if sw.app_events:
+                raise explore.InternalError("C10: application events before any callback was registered")
         sw.register_app_callback()
         self.t0 = sw.loop.time()
         self._start_workload(params["workload"])
@@ -186,6 +196,8 @@ class World:
                         out.append((("dlv", line, f), 1))
         if self.fail is None and self.steps < 200:
             for k in KINDS:
+                if k == "silent" and self.p.get("prior"):
+                    continue    # the link is already in the failed state: nothing is sent, silence cannot be observed
                 out.append((("fail", k), 1))
                 if self.coincidence and k != "close" and sw.loop.next_deadline() is not None:
                     out.append((("fail", k, "+timer"), 1))
@@ -261,7 +273,7 @@ class World:
             # a lost / damaged / duplicated RST or RSTACK may make the reset time out (as in C09); any other line fault is absorbed
             reset_frame_hit = getattr(self, "faulted_kind", None) in ("RST", "RSTACK")
             for c in self.calls:
-                if c["outcome"] != "ok" and self.p["workload"] != "reset-mute" and not reset_frame_hit:
+                if c["outcome"] != "ok" and self.p["workload"] != "reset-mute" and not reset_frame_hit and not self.p.get("prior"):
                     self.viol.append(f"{'line fault on a ' + self.faulted_kind + ' frame' if hasattr(self, 'faulted_kind') else 'fault-free run'}: {c['name']} ended with {c['outcome']}")
             return
         if kind == "close":
@@ -340,7 +352,7 @@ def vkey(msg, params):
 
     m = re.sub(r"[-+]?\d+\.\d+s?", "#", msg)
     m = re.sub(r"\(.*?\)", "", m)
-    return f"C10|{params['workload']}|" + re.sub(r"\s+", " ", m).strip()[:100]
+    return f"C10|{params['workload']}{'+prior-unreported-error' if params.get('prior') else ''}|" + re.sub(r"\s+", " ", m).strip()[:100]
 
 
 def param_list(tier):
@@ -348,6 +360,9 @@ def param_list(tier):
     versions = [4, 8, 14] if tier == "quick" else [4, 5, 7, 8, 9, 13, 14, 15]
     out = [{"workload": w, "version": v} for v in versions for w in wls]
     out += [{"workload": w, "version": v, "path": "socket://h:1"} for w in wls for v in ((8,) if tier == "quick" else (4, 8, 14))]
+    # an earlier ERROR frame went unreported because no application callback was registered yet
+    out += [{"workload": w, "version": v, "prior": pr} for v in ((8,) if tier == "quick" else (4, 8, 14)) for w in ("idle", "one", "reset")
+            for pr in ("error51", "error80")]
     return out
 
 
@@ -380,6 +395,7 @@ def main(tier: str) -> int:
     rep.assumptions = [
         "command timeout 10 s and link budget 5 x 3.2 s hard-coded in the oracle; the keep-alive is issued 10 s after the workload starts",
         "for a silent NCP the controller-reset request must arrive by injection + 10 s (keep-alive) + command timeout + link budget",
+        "'prior' workloads: an ERROR frame is delivered before the application callback is registered (ignored by design, link left failed), then the callback is registered and the failures are injected",
         "failures are injected after a fault-free bring-up, once an application callback is registered; full stack with use_thread=False on one hand-stepped loop",
     ]
     return rep.finish()
